@@ -70,6 +70,7 @@ class Interp:
     def __init__(self, env, call_hook=None, on_store=None, loop_hook=None, strict=False, name_hook=None, attr_hook=None):
         self.attr_hook = attr_hook  # attribute of a modelled object that is not stored on it (a @property of its class)
         self.str_hook = None  # text of a modelled object (its class's __str__/__repr__); set by the object-model runner
+        self.yield_hook = None  # hands a yielded value to the consumer (generator evaluation)
         self.name_hook = name_hook  # resolves free names / attributes of free names (class references, builtins) or returns NotImplemented
         self.strict = strict  # concrete evaluation: a failed lookup is the program's own KeyError/IndexError, not a missing domain
         self.env = dict(env)
@@ -163,6 +164,13 @@ class Interp:
             return True
         if isinstance(node, ast.IfExp):
             return self.ev(node.body) if self.truth(self.ev(node.test), node.test) else self.ev(node.orelse)
+        if isinstance(node, ast.Yield) and self.yield_hook is not None:
+            self.yield_hook(self.ev(node.value) if node.value is not None else None)
+            return None
+        if isinstance(node, ast.YieldFrom) and self.yield_hook is not None:
+            for v in self.ev(node.value):
+                self.yield_hook(v)
+            return None
         if isinstance(node, ast.JoinedStr):
             parts = []
             for v in node.values:
